@@ -106,10 +106,19 @@ def remainders(repo, units_cfg, workdir=None):
                     continue
                 spans[key] = (f["file"], f["fn_bytes"])
                 by_unit.setdefault(key, set()).add(u)
-                if f["src_bytes"][0] <= f["fn_bytes"][0] and f["src_bytes"][1] >= f["fn_bytes"][1]:
+                # text the piece REPLACES by declared text (E24 statements, E25 closures) is not covered by it
+                # (another piece may cover it: a hoisted closure, a slice of the replaced statement's block)
+                holes = sorted(tuple(h) for h in f.get("dropped_bytes", []))
+                if not holes and f["src_bytes"][0] <= f["fn_bytes"][0] and f["src_bytes"][1] >= f["fn_bytes"][1]:
                     whole.add(key)
                 else:
-                    cover.setdefault(key, []).append(tuple(f["src_bytes"]))
+                    pos = f["src_bytes"][0]
+                    for a, b in holes:
+                        if a > pos:
+                            cover.setdefault(key, []).append((pos, a))
+                        pos = max(pos, b)
+                    if f["src_bytes"][1] > pos:
+                        cover.setdefault(key, []).append((pos, f["src_bytes"][1]))
     finally:
         if workdir is None:
             import shutil; shutil.rmtree(tmp, ignore_errors=True)
